@@ -393,9 +393,27 @@ def _message_case(case: dict) -> dict:
         q = w.queue
         want = fields(msg)
         m2 = copy.deepcopy(msg)
+        def scribble(m) -> None:
+            # the producer goes on using ITS object after the push (re-targets it for the next recipient, updates
+            # a dict it passed in): what was pushed is what the object held at the time of the push
+            for fname, v in list(m.__dict__.items()):
+                if fname in META or fname.startswith("_"):
+                    continue
+                if isinstance(v, dict):
+                    v["changed_by_producer_after_push"] = True
+                elif isinstance(v, bool):
+                    setattr(m, fname, not v)
+                elif isinstance(v, int):
+                    setattr(m, fname, v + 3)
+                elif isinstance(v, str):
+                    setattr(m, fname, v + "-reused")
+
         q.push(msg)
+        scribble(msg)
         with w.store.transaction(q) as txn:
             txn.push_message(m2, 0)
+            scribble(m2)
+        obs["producer_mutations_after_push"] += 2
         rows = w._exec_side("SELECT id, message_type, payload FROM queue_messages ORDER BY id").fetchall()
         obs["messages_round_tripped"] += 1
         if len(rows) != 2:
